@@ -8,6 +8,8 @@ own grid, H(t) = drift + sum c_m(t) H_m, ordered product of scipy expm over the 
 import bisect
 import json
 import os
+for _v in ("OMP_NUM_THREADS", "OPENBLAS_NUM_THREADS", "MKL_NUM_THREADS"):
+    os.environ.setdefault(_v, "1")      # tiny matrices: BLAS threads only fight the other checks for cores
 import shutil
 import tempfile
 import warnings
@@ -345,7 +347,7 @@ def total_product(us, d):
     return p
 
 
-def oracle_case(inp, impl=None, proc=None, mats=None, solver=False, files=True):
+def oracle_case(inp, impl=None, proc=None, mats=None, solver=False, files=True, states=True):
     """returns list of failure dicts (observed/expected/what) for this input"""
     fails = []
 
@@ -390,6 +392,8 @@ def oracle_case(inp, impl=None, proc=None, mats=None, solver=False, files=True):
     # state evolution through run_state(analytical=True): ket and density matrix
     try:
         import qutip
+        if not states:
+            raise StopIteration
         with warnings.catch_warnings():
             warnings.simplefilter("ignore")
             rs = np.random.RandomState(inp.get("state_seed", 7))
@@ -401,6 +405,8 @@ def oracle_case(inp, impl=None, proc=None, mats=None, solver=False, files=True):
                 if not (np.allclose(lst[0].full(), st.full()) and len(lst) == len(impl["props"]) + 1):
                     fail("run_state(analytical=True) does not start from the given %s state" % mode,
                          len(lst), len(impl["props"]) + 1)
+    except StopIteration:
+        pass
     except Exception as e:
         fail("run_state(analytical=True) raised on a valid input", repr(e)[:200], "list of state and propagators")
     # operator assembly for the solvers: H(t) at interval midpoints (and no collapse operators)
@@ -813,7 +819,9 @@ def correspond(ctx):
         use_solver = in_property_domain(inp) and n_solver > 0 and kind in ("valid", "leak-family", "corpus")
         if use_solver:
             n_solver -= 1
-        for f in oracle_case(inp, impl, proc, mats, solver=use_solver, files=(kind != "near-tolerance")):
+        light = kind not in ("corpus",) and idx % 3 != 0       # the heavier re-runs on every third case
+        for f in oracle_case(inp, impl, proc, mats, solver=use_solver,
+                             files=(kind != "near-tolerance" and not light), states=not light):
             corr.oracle_fail(f["input"], f["observed"], f["expected"], f["what"])
         grid = impl["full"] or []
         arr = [c for c in inp["channels"] if isinstance(c["coeff"], list) and c["tlist"] is not None]
@@ -941,7 +949,20 @@ def _zero_tails(inp):
     return out, changed
 
 
+_CLASSIFY_MEMO = {}
+
+
 def classify(failure):
+    try:
+        k = json.dumps([failure.get("input"), failure.get("what")], sort_keys=True, default=str)
+    except Exception:
+        return _classify(failure)
+    if k not in _CLASSIFY_MEMO:
+        _CLASSIFY_MEMO[k] = _classify(failure)
+    return _CLASSIFY_MEMO[k]
+
+
+def _classify(failure):
     inp = failure.get("input")
     what = failure.get("what", "")
     if not isinstance(inp, dict) or "channels" not in inp:
@@ -955,7 +976,9 @@ def classify(failure):
         z, changed = _zero_tails(inp)
         if changed:
             try:
-                again = [f for f in oracle_case(z, solver=("solver evolution" in what)) if f["what"] == what]
+                again = [f for f in oracle_case(z, solver=("solver evolution" in what),
+                                                files=("changes the evolution" in what), states=False)
+                         if f["what"] == what]
             except Exception:
                 return None
             if not again:
